@@ -69,3 +69,38 @@ func ZZVerif_C14_Bridge() {
 		zzverif.Assert("still halted: queries refuse", isInc(e))
 	}
 }
+
+// ZZVerif_C14_BridgeFailedReorg: the bridge syncer is halted (deposit-count gap in block 3); a reorg from block RB is attempted
+// while deletes on table T fail. The reorg reports the error, removes nothing and the syncer stays halted; once the fault is
+// gone the same reorg succeeds and clears the condition.
+func ZZVerif_C14_BridgeFailedReorg() {
+	ctx := context.Background()
+	rb := uint64(zzverif.Param("RB"))
+	table := []string{"block", "root"}[zzverif.Param("T")]
+	p := zzNewProcessor(zzverif.TempDB("bridge"))
+	for n := uint64(1); n <= 2; n++ {
+		b, _ := zzBridge(n, 0, uint32(n-1), 0)
+		zzverif.Assume(b.Hash() != common.Hash{})
+		zzverif.Assume(p.ProcessBlock(ctx, sync.Block{Num: n, Hash: zzverif.Hash("bh"), Events: []interface{}{Event{Bridge: b}}}) == nil)
+	}
+	gap := zzverif.U32("gapCount")
+	zzverif.Assume(gap != 2)
+	bg, _ := zzBridge(3, 0, gap, 0)
+	err := p.ProcessBlock(ctx, sync.Block{Num: 3, Hash: zzverif.Hash("bh"), Events: []interface{}{Event{Bridge: bg}}})
+	zzverif.Assert("halted", errors.Is(err, sync.ErrInconsistentState) && p.isHalted())
+	zzverif.FailDelete(p.db, table)
+	err = p.Reorg(ctx, rb)
+	zzverif.ClearFaults(p.db, table)
+	zzverif.Assert("a reorg whose deletes fail reports the error", err != nil)
+	zzverif.Assert("failed reorg: still halted", p.isHalted())
+	lp, err := p.GetLastProcessedBlock(ctx)
+	zzverif.Assert("failed reorg: no block removed", err == nil && lp == 2)
+	s := &BridgeSync{processor: p}
+	_, e := s.GetLastProcessedBlock(ctx)
+	zzverif.Assert("failed reorg: queries still refuse", errors.Is(e, sync.ErrInconsistentState))
+	zzverif.Assert("reorg without the fault succeeds", p.Reorg(ctx, rb) == nil)
+	zzverif.Assert("and clears the condition", !p.isHalted())
+	lp, err = p.GetLastProcessedBlock(ctx)
+	zzverif.Assert("and removes the blocks", err == nil && lp == rb-1)
+	zzverif.Reach("end")
+}
